@@ -307,6 +307,8 @@ def run(prop, tier, vseed):
         for a, fails, pairs in pool.imap(table_twins, tasks, chunksize=2):
             nev += a
             failures.extend(fails)
+            if len(failures) > 20000:
+                failures = report.compact(failures)
             npairs = max(npairs, pairs)
         extra = {}
         try:
